@@ -77,6 +77,20 @@ def explore(ctx):
         ctx.count('revisit-oracle-only')
         if any(p['worked'] for p in o.passes) and any(rc != 0 for (_c, rc, _w, _l) in o.testlog):
             ctx.nontriv(repr((sc['files'], sc['passes'], sc['rules'], sc['cfg'], sc['sched'])))
+    # cache replays of contents with CR / CR LF / bytes outside UTF-8 / NUL: what a replay writes was accepted, byte for byte
+    for body in ('a\r\nb\ra\r', 'a\xff\r\n\xe9a\x00z', '\r\na\n\ra'):
+        for nn in (1, 2):
+            sc = {'files': [('f0.c', body)], 'rules': [([('has', 0, '\r')], 0)],
+                  'passes': [{'key': 1, 'ops': [('delch', 'a')], 'aos': 0, 'maxt': None, 'newfix': None},
+                             {'key': 2, 'ops': [('set', body)], 'aos': 1, 'maxt': None, 'newfix': None},
+                             {'key': 1, 'ops': [('delch', 'a')], 'aos': 0, 'maxt': None, 'newfix': None}],
+                  'cfg': {'N': nn, 'no_cache': False}, 'sched': [1] * 30}
+            o = driver.run_scenario(sc, ctx.tmp)
+            ctx.evaluations += 1
+            ctx.count('replay-of-binary-contents')
+            if not o.diverged:
+                oracle(ctx, sc, o, 'each')
+                each.append((driver.coq_scenario(sc, o.perm), o.out, sc))
     for it in range(n2):
         sc = scengen.gen_group(rnd, 'faults' if it % 3 else 'contract')
         o = driver.run_scenario(sc, ctx.tmp, mode='reduce')
